@@ -31,9 +31,12 @@ fn gen_cfg(ctx: &Ctx, rng: &mut Rng, text_entries: bool) -> (Xcfg, comm::ScriptI
     let entry = if text_entries {
         *rng.pick(&[Entry::CommunicateStr, Entry::ReadString, Entry::ExecCapture, Entry::CommunicateBytes])
     } else {
-        *rng.pick(&[Entry::CommunicateBytes, Entry::Start, Entry::ExecCapture, Entry::ExecCommunicate, Entry::Start, Entry::CommunicateBytes])
+        *rng.pick(&[Entry::CommunicateBytes, Entry::Start, Entry::ExecCapture, Entry::ExecCommunicate, Entry::Start, Entry::CommunicateBytes, Entry::PipelineCapture, Entry::PipelineCommunicate])
     };
-    let err_merge = !err_piped && out_piped && rng.chance(150);
+    // a pipeline's capture/communicate always pipe stdout and stderr; the scripted child is its first command
+    let pipeline = matches!(entry, Entry::PipelineCapture | Entry::PipelineCommunicate);
+    let (out_piped, err_piped) = if pipeline { (true, true) } else { (out_piped, err_piped) };
+    let err_merge = !pipeline && !err_piped && out_piped && rng.chance(150);
     let cfg = Xcfg {
         seed,
         script: si.script.clone(),
@@ -126,7 +129,12 @@ fn judge_c02(ctx: &mut Ctx, cfg: &Xcfg, si: &comm::ScriptInfo, x: &Xres) {
     };
     let wrote1 = x.child_wrote(1);
     let wrote2 = x.child_wrote(2);
-    let exp_out: Vec<u8> = if cfg.err_merge { vec![] } else { pat_vec(cfg.seed, 1, 0, wrote1 as usize) };
+    let mut exp_out: Vec<u8> = if cfg.err_merge { vec![] } else { pat_vec(cfg.seed, 1, 0, wrote1 as usize) };
+    if matches!(cfg.entry, Entry::PipelineCapture | Entry::PipelineCommunicate) {
+        // the second command copies its input and appends [1:len:hash of what it saw]
+        let t = format!("[1:{}:{:016x}]", exp_out.len(), crate::common::fnv(&exp_out));
+        exp_out.extend_from_slice(t.as_bytes());
+    }
     let exp_err = pat_vec(cfg.seed, 2, 0, wrote2 as usize);
     let text = r.out.is_none() && r.err.is_none() && (r.out_str.is_some() || r.err_str.is_some() || matches!(cfg.entry, Entry::CommunicateStr | Entry::ReadString));
     if !r.ok {
